@@ -64,6 +64,7 @@ type verifConn struct {
 	readsUnarmedMidPacket int
 	noDeadlineErrs bool
 	onWrite func(c *verifConn) // hook after each accepted write
+	coarse  bool               // case-split faulty write offsets coarsely (0, 1, len-1)
 }
 
 func (c *verifConn) Write(p []byte) (int, error) {
@@ -77,8 +78,10 @@ func (c *verifConn) Write(p []byte) (int, error) {
 	}
 	mode := verifWOK
 	if c.wfaults > 0 && len(p) > 0 {
-		c.wfaults--
 		mode = verifChoose("wmode", 4)
+		if mode != verifWOK {
+			c.wfaults--
+		}
 	}
 	switch mode {
 	case verifWOK:
@@ -91,7 +94,13 @@ func (c *verifConn) Write(p []byte) (int, error) {
 		c.closed = true
 		return 0, net.ErrClosed
 	}
-	n := verifChoose("wn", len(p)) // 0 <= n < len(p): an error never comes with everything accepted
+	n := 0
+	if c.coarse && len(p) > 3 {
+		// long packets: stop at the first byte, after it, or before the last
+		n = []int{0, 1, len(p) - 1}[verifChoose("wn3", 3)]
+	} else {
+		n = verifChoose("wn", len(p)) // 0 <= n < len(p): an error never comes with everything accepted
+	}
 	c.wlog = append(c.wlog, p[:n]...)
 	if mode == verifWTimeout {
 		c.wtimeouts++
